@@ -3,10 +3,10 @@ package sim
 import (
 	"bytes"
 	"context"
-	"regexp"
 	"encoding/json"
 	"fmt"
 	"os"
+	"regexp"
 	"runtime/debug"
 	"sort"
 	"strconv"
@@ -69,14 +69,16 @@ type Config struct {
 	Steps2    []StepCfg `json:"steps2,omitempty"`  // alternative plan for "user.editplan"
 	ScaleTo   int       `json:"scaleTo,omitempty"` // target of "user.scale"
 	RolloutID bool      `json:"rolloutID,omitempty"`
-	Threshold string    `json:"threshold,omitempty"` // failureThreshold
-	NoCanarySvc bool    `json:"noCanarySvc,omitempty"`
-	Grace0    bool      `json:"grace0,omitempty"` // trafficRoutings[].gracePeriodSeconds = 0
-	TRRef     bool      `json:"trRef,omitempty"` // use a TrafficRouting CR instead of inline trafficRoutings
-	HPA       bool      `json:"hpa,omitempty"`   // a HorizontalPodAutoscaler targets the workload (blue-green disables / restores it)
-	Queue     bool      `json:"queue,omitempty"` // reconciles are enabled only when the controller's key is pending (real wake-ups)
-	Actions   []string  `json:"actions"`         // user / disturbance actions enabled (env + controllers are always on)
-	Budget    map[string]int `json:"budget,omitempty"` // per action-class budgets
+	// RolloutIDFixed: the user keeps ONE rollout-id across all releases (the label is not bumped with the revision)
+	RolloutIDFixed bool           `json:"rolloutIDFixed,omitempty"`
+	Threshold      string         `json:"threshold,omitempty"` // failureThreshold
+	NoCanarySvc    bool           `json:"noCanarySvc,omitempty"`
+	Grace0         bool           `json:"grace0,omitempty"` // trafficRoutings[].gracePeriodSeconds = 0
+	TRRef          bool           `json:"trRef,omitempty"`  // use a TrafficRouting CR instead of inline trafficRoutings
+	HPA            bool           `json:"hpa,omitempty"`    // a HorizontalPodAutoscaler targets the workload (blue-green disables / restores it)
+	Queue          bool           `json:"queue,omitempty"`  // reconciles are enabled only when the controller's key is pending (real wake-ups)
+	Actions        []string       `json:"actions"`          // user / disturbance actions enabled (env + controllers are always on)
+	Budget         map[string]int `json:"budget,omitempty"` // per action-class budgets
 	// Peer: a second, independent scenario (its own workload, Services and Rollout, SAME object names) in
 	// namespace PeerNS of the same cluster, reconciled by the same controller instances (C19). Its actions are
 	// prefixed "b:", the first scenario's "a:"; tick and env.gc are cluster-wide.
@@ -98,8 +100,8 @@ type World struct {
 	Q      Queues
 	wake   *wakeHandlers
 	NS     string
-	Peer   *World // second scenario sharing store, controllers and process-wide helpers
-	parent *World // set on the peer
+	Peer   *World          // second scenario sharing store, controllers and process-wide helpers
+	parent *World          // set on the peer
 	own    map[string]bool // keys this scenario's objects use in the process-wide grace map
 }
 
@@ -112,16 +114,16 @@ func (w *World) top() *World {
 
 // Ghost is history the properties refer to but the cluster does not store.
 type Ghost struct {
-	Orig      map[string]interface{} `json:"orig"`      // user-owned configuration before the release
-	Used      map[string]int         `json:"used"`      // budget consumption per action class
-	Rev       int                    `json:"rev"`       // template revision the user last asked for
-	RolledBack bool                  `json:"rolledBack"`
-	Created   bool                   `json:"created"`
+	Orig       map[string]interface{} `json:"orig"` // user-owned configuration before the release
+	Used       map[string]int         `json:"used"` // budget consumption per action class
+	Rev        int                    `json:"rev"`  // template revision the user last asked for
+	RolledBack bool                   `json:"rolledBack"`
+	Created    bool                   `json:"created"`
 	// ReadySteps: step indices (1-based) whose batch the BatchRelease has reported Ready, with a
 	// current spec, under the rollout's current canary revision and plan hash (reset when either changes).
-	BrEver     bool   `json:"brEver"`   // a BatchRelease has existed since the release (of the rollout's current canary revision) started
+	BrEver     bool   `json:"brEver"` // a BatchRelease has existed since the release (of the rollout's current canary revision) started
 	BrEverRev  string `json:"brEverRev"`
-	JumpBack   bool   `json:"jumpBack"` // the user jumped to a lower step index during this release
+	JumpBack   bool   `json:"jumpBack"`   // the user jumped to a lower step index during this release
 	LateChange bool   `json:"lateChange"` // the user changed the template while the rollout was already finalising / cancelling
 	MidSwitch  bool   `json:"midSwitch"`  // the user changed the reason to finalise (rollback, newer revision, delete, disable) while a finalising / reset sequence was under way
 	SupBack    bool   `json:"supBack"`    // the user rolled back after a newer revision had superseded the one being released (v2 -> v3 -> back to v1)
@@ -308,7 +310,7 @@ func (w *World) fixtureCommon() error {
 				Key: "rollouts.kruise.io/workload-type", Operator: metav1.LabelSelectorOpExists}}},
 			Rules: []admissionregistrationv1.RuleWithOperations{{
 				Operations: []admissionregistrationv1.OperationType{upd},
-				Rule: admissionregistrationv1.Rule{APIGroups: []string{"*"}, APIVersions: []string{"*"}, Resources: []string{"*"}},
+				Rule:       admissionregistrationv1.Rule{APIGroups: []string{"*"}, APIVersions: []string{"*"}, Resources: []string{"*"}},
 			}},
 		}},
 	}
